@@ -3,6 +3,7 @@ import collections, itertools
 from .. import cases as K
 from ..layer_a import Engine, proj_kinds
 from ..runner import run_coexec, replay_coexec
+from ..deleg_part import DelegPart
 
 MODULE = "Props.C09"
 THEOREMS = ["C09_clone_drop_silent", "C09_clone_not_original", "C09_verify_on_clone_panics",
@@ -122,9 +123,35 @@ def engines(tier):
     return [Engine("C09", project=proj_kinds)]
 
 
+def receiver_case(rng):
+    """C15's generator (trait D: &self, &mut self, self, Rc / Arc sole or shared, Pin receivers; provided bodies calling required
+    methods), with the handle count observed after every call and the original verified, dropped or reported at the end"""
+    from . import C15
+    c = C15.gen_case(rng)
+    evs, alive = [], None
+    for e in c["events"]:
+        evs.append(e)
+    # observe the count through the lowest instance that is certainly still alive after each call
+    out, live, n = [], {0}, 1
+    from .. import layer_d as D
+    for e in evs:
+        out.append(e)
+        b = e["base"]
+        if b[0] == "clone": live.add(n); n += 1
+        elif b[0] == "call" and b[2] in D.CONSUMING: live.discard(b[1])
+        elif b[0] in ("drop", "verify", "report"): live.discard(b[1])
+        if b[0] == "call" and live:
+            out.append({"base": ("count", min(live))})
+    c["events"] = out
+    return c
+
+
 def run(tier, seed):
     return run_coexec("C09", tier, seed, module=MODULE, theorems=THEOREMS, gen_cases=gen_cases,
-                      nontrivial=nontrivial, rule=RULE, engines=engines(tier), stats=stats)
+                      nontrivial=nontrivial, rule=RULE, engines=engines(tier), stats=stats,
+                      parts=[DelegPart("C09", receiver_case, "correspondence C09 (receiver part): handles created and released by delegation through every receiver kind "
+                                       "(helper clones, the original travelling through a by-value / sole-owner Rc / Arc call and back) vs the model: strong counts, "
+                                       "which instance is the original, verdicts", rule=receiver_case.__doc__)])
 
 
 def replay(path):
